@@ -377,6 +377,7 @@ impl vstd::std_specs::convert::TryFromSpecImpl<&TExpr> for u32 {
         'Cast::get_type': dict(props=['C08'], ret='r', spec='ensures *r == self.typ,'),
         'Cast::to_expr': dict(props=['C08', 'C06'], ret='r', spec='ensures r == Expr::Cast(Box::new(self)),'),
         'BoolLiteral::to_expr': dict(props=['C08', 'C06'], ret='r', spec='ensures r == Expr::Literal(Literal::Bool(self)),'),
+        'IntLiteral::new': dict(props=['C08', 'C06'], ret='r', spec='ensures r.sign == sign,     //@C06:constructor-keeps-its-arguments'),
         'IntLiteral::to_expr': dict(props=['C08', 'C06'], ret='r', spec='ensures r == Expr::Literal(Literal::Int(self)),'),
         'IntLiteral::to_imaginary_expr': dict(props=['C08', 'C06'], ret='r', spec='ensures r == Expr::Literal(Literal::ImaginaryInt(self)),'),
         'FloatLiteral::to_expr': dict(props=['C08', 'C06'], ret='r', spec='ensures r == Expr::Literal(Literal::Float(self)),'),
@@ -832,10 +833,14 @@ ensures
     assert(context.errs() == midc.errs() + cond1(def_type.num_params != opt_len(param_list), SemanticErrorKind::NumDefParamsError));   //@C13:subroutine-argument-count
 }'''),
     ]
+    zov.setdefault('call_expr_to_asg_texpr', {}).update(dict(ret='r', props=['C06', 'C13', 'C03'], spec='ensures r.expression is SubroutineCall,     //@C06:expression-class'))
+    zov.setdefault('negative_int_to_asg_type', {}).update(dict(ret='r', props=['C06', 'C03'], spec='ensures !r.sign,     //@C06:expression-class'))
     zov.setdefault('expr_to_asg_texpr', {}).update(dict(ret='res', spec='''
 ensures
     // an expression that is present is always translated (never silently dropped)
     expr_maybe is Some ==> res is Some,                                                     //@C03,C06:expr-translated
+    // ... as the graph construct of the same meaning
+    expr_maybe is Some ==> expr_kind_ok(expr_maybe->Some_0, res->Some_0),                   //@C06:expression-class
     grows(*old(context), *final(context)),
     // a cast expression becomes a Cast node whose type is its target type: the (const) type written in the cast
     (expr_maybe is Some && expr_maybe->Some_0 is CastExpression) ==> res->Some_0.expression is Cast
